@@ -1321,8 +1321,8 @@ def r_stalevar(db, rep):
 
 # ---------------------------------------------------------------------------------------------------
 @rule("R-CURSORFILL", 4, "a byte array that is saved up to a cursor member (save writes A[0..N)) is written wherever the cursor goes: in the "
-                         "building constructor no advance of N (N++, N += k) follows the previous advance without any store into A in between "
-                         "(element store, memcpy/strcpy into it, or a callee handed a pointer into it); decided in the definite form only")
+                         "building constructor every advance of N (N++, N += k) is preceded, since the previous advance, by a store into A "
+                         "(element store, memcpy/strcpy into it, or a callee handed a pointer into it) on every path")
 def r_cursorfill(db, rep):
     from rules_serial import find_pairs, flat_items, is_dispatcher
     pairs = []
@@ -1385,23 +1385,34 @@ def r_cursorfill(db, rep):
                 # an advance that itself stores (N += encode(.., &A[N])) leaves the byte at the new cursor written (the encoder's
                 # current, partly filled byte): it is not a start of an unwritten stretch
                 embedded = {id(w2) for w2 in advances if any(any(y is x for y in walk(w2)) for x in stores)}
+                # ... and so does N++ right after a store at A[N + 1] in the same block (the byte at the new cursor was written ahead)
+                for w2 in advances:
+                    p2 = apos[id(w2)]
+                    if p2 is None or not (w2["k"] == "UnaryOperator" and w2["op"] == "++"):
+                        continue
+                    for x in stores:
+                        lv0 = strip(x.get("lhs")) if x.get("lhs") is not None else None
+                        px = cfg.position(x)
+                        if lv0 is None or lv0["k"] != "ArraySubscriptExpr" or px is None or px[0] != p2[0] or px[1] >= p2[1]:
+                            continue
+                        ix = strip(lv0["idx"])
+                        if ix["k"] == "BinaryOperator" and ix["op"] == "+" and access_path(c, ix["lhs"]) == N and const_value(ix["rhs"]) == 1:
+                            embedded.add(id(w2))
                 # (the stretch from the function entry to the first advance is not judged: with no string at all the loops that
                 # store do not run, and an empty dictionary is not a supported input)
                 starts = [q for k2, q in apos.items() if q is not None and k2 != id(w) and k2 not in embedded]
                 bad = None
                 for st in starts:
-                    # definite form only: the previous advance dominates this one and no store at all can execute in between
-                    # (a may-path through loops and correlated branches would report encoders that keep a "current byte")
-                    if not cfg.dominates(st, p):
-                        continue
-                    if any(cfg.path_exists(st, [sp], avoid=[p]) and cfg.path_exists(sp, [p], avoid=[st]) for sp in spos):
-                        continue
-                    if any(q is not None and q not in (p, st) and cfg.path_exists(st, [q], avoid=[p]) and cfg.path_exists(q, [p], avoid=[st]) for q in apos.values()):
-                        continue
-                    bad = st
-                    break
+                    # some path from the previous advance to this one on which nothing is stored into A (and no other advance
+                    # lies in between).  (A first version of this clause was narrowed to "the previous advance dominates and no
+                    # store can run in between" after HTFC/HHTFC images built from inputs that do not take the path compared
+                    # equal; a defect hunt then produced the inputs that do - elements % bucketsize == 1 - and the reports were
+                    # genuine.  The may-form is the rule.)
+                    if cfg.path_exists(st, [p], avoid=spos + [q for q in apos.values() if q is not None and q != p and q != st]):
+                        bad = st
+                        break
                 if bad is not None:
                     rep.viol("%s#%s-advanced-without-store" % (c.qn, cur), c.nloc(w),
-                             "%s advances %s at line %s although nothing can have been stored into %s since the previous advance: "
+                             "%s advances %s at line %s although, on some path since the previous advance, nothing was stored into %s: "
                              "%s::save writes %s[0..%s), so that byte reaches the image holding whatever the allocator returned" % (
                                  c.qn, cur, w.get("l"), arr, rec, arr, cur), c.qn)
